@@ -37,7 +37,7 @@ C = {
          "nowiki contents from the token alphabet in 28 expand and 15 parse embedding contexts: output must equal the 15-character quoting of the content, decode back, stay one text node and trigger no expansion; inputs with comments must behave as the same input with the comments deleted",
          "trusted: the 15-character map re-derived from the documentation; comment relation asserted only where gluing creates no new delimiter"),
  "C16": ("exploration", "runtime monitoring: icontract snapshot/ensure on Wtp.expand / Wtp.parse (nested calls included), message-shape invariant, start_page postcondition, 300x repetition",
-         "pages mixing templates, loops, failing/timing-out Lua (virtual clock), bad parser-function input under all 16 option combinations; expand_stack after every returning call (also nested ones made by frame:preprocess/expandTemplate) must equal its value at entry; every message checked for keys/title/section; 300 flat repetitions must not produce a depth error",
+         "pages mixing templates, loops, failing/timing-out Lua (virtual clock), bad parser-function input, non-decimal digit argument names and a caller hook that raises inside nested sub-expansions, under all 27 option combinations; expand_stack after every returning call (also nested ones made by frame:preprocess/expandTemplate) must equal its value at entry; every message checked for keys/title/section; 300 flat repetitions must not produce a depth error",
          "trusted: documented message keys = ErrorMessageData"),
  "C17": ("exploration", "runtime monitoring: real analyze_templates on generated inclusion graphs with a table-driven classifier vs a closure model (bounded-exhaustive + random)",
          "all libraries on <=3 templates (adjacency x flags x redirects; sampled with redirect pages in quick) and random graphs to 8 templates with cycles, diamonds, hostile spellings; the marked set must lie between the two readings of the redirect clause; termination under a CPU budget",
@@ -49,7 +49,7 @@ C = {
          "grammar documents to depth 4: N(parse(to_wikitext(t))) == N(t), second trip is a fixed point, subtrees/child lists/strings passed directly, literal brackets never become links",
          "trusted: normaliser N (whitespace at block boundaries only)"),
  "C20": ("exploration", "runtime monitoring: k real worker processes on one database with line-level delay injection (sys.settrace), offline checker over per-worker logs + table diff",
-         "2..16 forked workers open the same path through a barrier with seed-derived 0-30 ms delays between the lines of create_db / bootstrap; results compared with a single-process reference and a by-construction model; pages table compared before/after; distinct interleavings counted",
+         "2..16 workers (forked, or separately started interpreters with distinct hash seeds) open the same path through a barrier with seed-derived 0-30 ms delays between the lines of create_db / bootstrap; results compared with a single-process reference and a by-construction model; pages table compared before/after; distinct interleavings counted",
          "schedules explored by perturbation, not exhaustively; evidence lists the interleavings seen"),
 }
 NOT_YET = {
